@@ -16,7 +16,7 @@ import numpy as np
 import common
 sys.path.insert(0, os.path.join(common.VERIF, "gen"))
 
-MEAN_TOL = 1e-12          # relative to mean |x_i| ; float summation error of n<=64 terms is <= n*2^-53 ~ 7e-15
+MEAN_TOL = 1e-12          # relative to mean |x_i| ; float summation error of n<=330 terms is <= n*2^-53 ~ 4e-14
 MIN_EVENTS = 40           # different-seed comparison only on runs with at least this many events / draws
 
 
@@ -407,6 +407,7 @@ def gen_case(rng, kind, quick):
         tform, t = "vector", [T * (i + 1) / npt for i in range(npt)]
     n = int(rng.integers(1, 6 if quick else 12))
     if kind == "param": n = int(rng.integers(1, 9 if quick else 40))
+    if kind == "param" and rng.random() < 0.04: n = int(rng.integers(65, 330))      # a few large run counts
     s1 = int(rng.integers(0, 2 ** 31 - 1)); s2 = int(rng.integers(0, 2 ** 31 - 1))
     if s2 == s1: s2 = (s1 + 1) % (2 ** 31 - 1)
     if rng.random() < 0.15: s1, s2 = int(rng.integers(0, 5)), int(rng.integers(5, 10))     # small seeds too
@@ -487,6 +488,15 @@ CORPUS = [
          n=3, seeds=[3, 4], split=1,
          params={"k0": dict(form="tuple", fn="runif", args=[0.4, 0.6], kw=False),
                  "k1": dict(form="frozen", dist="uniform", args=[0.2, 0.2])}),
+    # many runs: the reported mean must be the mean of all of them, whatever the count (blocked / streaming means)
+    dict(kind="param", fn="simulate_param", model=dict(name="chain", k=3), x0=[50, 0, 0], t=[1.0, 2.0], tform="vector",
+         n=130, seeds=[21, 22], split=100,
+         params={"k0": dict(form="tuple", fn="runif", args=[0.2, 1.6], kw=False),
+                 "k1": dict(form="frozen", dist="uniform", args=[0.1, 0.8])}),
+    dict(kind="param", fn="solve_determ", model=dict(name="chain", k=3), x0=[50, 0, 0], t=[1.0, 2.0], tform="vector",
+         n=257, seeds=[23, 24], split=64,
+         params={"k0": dict(form="tuple", fn="runif", args=[0.2, 1.6], kw=False),
+                 "k1": dict(form="frozen", dist="uniform", args=[0.1, 0.8])}),
     dict(kind="setter", model=dict(name="sir"), x0=[95, 5, 0], t=1.0, tform="scalar", n=3, seeds=[11, 12], split=1,
          params={"beta": dict(form="tuple", fn="rbeta", args=[2.0, 5.0], kw=True),
                  "gamma": dict(form="frozen", dist="lognorm", args=[0.1, 0.3]), "N": 100.0}),
